@@ -584,6 +584,12 @@ def checkerLoad (env : Env) (file : Bytes) : Except Err PoFile × Bool :=
   | .error .decode => (loadWith env latin1Name file, true)
   | r => (r, false)
 
+/-- One process, several files: `cli.check_all` calls `Checker(path).check()` for one path after the other and nothing the loader
+    keeps survives from one file to the next (a fresh `_POFileParser`, a fresh generator from `Codecs.open`, no module-level
+    state in `polib_unescape`).  The loop, with the list of results as its only variable. -/
+def loadSeq (env : Env) (files : List Bytes) : List (Except Err PoFile × Bool) :=
+  files.foldl (fun results file => results ++ [checkerLoad env file]) []
+
 /-! ## the interpreter's character classes as dumped by the translator (`Generated.PolibFsm`) -/
 
 def inRanges (rs : List (Nat × Nat)) (n : Nat) : Bool := rs.any fun r => r.1 ≤ n && n ≤ r.2
